@@ -416,6 +416,27 @@ def transformDma (byValue : Bool) (src dst : MemTy) (rs rd : Rt) : Except Err Lo
         | .error e => .error e
         | .ok r => .ok ⟨tS, tD, nested, r.1, r.2⟩
 
+/-- `TransformDMA(test_ignore_transform=True)`: everything up to step 3 as usual (so the same inputs are refused), then
+`if len(remaining_strides_list) == 0 or self.test_ignore_transform` always takes the 1-D branch. Documented upstream as
+"renders the data incorrect"; modelled for correspondence only, no property is claimed for it. -/
+def transformDmaIgnore (src dst : MemTy) (rs rd : Rt) : Except Err Lowered :=
+  if src.shape != dst.shape || src.el != dst.el || src.isInt != dst.isInt || !src.isInt then .error .noMatch else
+  match tslOf src dst src.shape with
+  | .error e => .error e
+  | .ok tS =>
+    match tslOf dst src src.shape with
+    | .error e => .error e
+    | .ok tD =>
+      match resolve src dst tS tD rs rd with
+      | .error e => .error e
+      | .ok nested =>
+        match lcbSplit nested.flatten with
+        | .error e => .error e
+        | .ok mr =>
+          .ok ⟨tS, tD, nested, lcbOfMembers mr.1,
+            ⟨applyOffset rs.base src.el tS.offset rs.offset, applyOffset rd.base dst.el tD.offset rd.offset, [],
+             .oneD (totalBytes rs.shape src.el)⟩⟩
+
 /-- `MatchSimpleCopy`: both layouts absent → one 1-D transfer of `Π dims · element size` bytes. -/
 def simpleCopy (src dst : MemTy) (rs rd : Rt) : Except Err DmaProg :=
   -- `assert isa(op.source.type, MemRefType[FixedBitwidthType])` comes before the layout test
